@@ -157,6 +157,8 @@ type kindSpec struct {
 	build    func(m *machine, node *dbNode) (syncFn, func())
 	genLog   func(g *genCtx) (fakechain.LogSpec, *refEvent)
 	extra    func(m *machine, sh *shadowDB, n uint64, hash []byte) (sig, detail string)
+	// markDecrypted sets the decrypted flag of stored rows the way the key release path does (nil: no such flag)
+	markDecrypted func(ctx context.Context, node *dbNode, eons []int64, identities [][]byte) error
 	setup    func(rt *rapid.T, m *machine)
 }
 
@@ -178,6 +180,9 @@ func identityOf(parts ...[]byte) []byte { return crypto.Keccak256(parts...) }
 var kindRegistry = &kindSpec{
 	name:   "registry",
 	def:    func() db.Definition { return svcdb.Definition },
+	markDecrypted: func(ctx context.Context, node *dbNode, eons []int64, ids [][]byte) error {
+		return svcdb.New(node.Pool).UpdateTimeBasedDecryptedFlags(ctx, svcdb.UpdateTimeBasedDecryptedFlagsParams{Eons: eons, Identities: ids})
+	},
 	status: tableSpec{"identity_registered_events_synced_until", []string{"enforce_one_row"}},
 	exact:  []tableSpec{{"identity_registered_event", []string{"identity_prefix", "sender"}}},
 	first:  func(s uint64) uint64 { return s },
@@ -333,6 +338,9 @@ type trigDef struct {
 var kindMulti = &kindSpec{
 	name:   "multi",
 	def:    func() db.Definition { return svcdb.Definition },
+	markDecrypted: func(ctx context.Context, node *dbNode, eons []int64, ids [][]byte) error {
+		return svcdb.New(node.Pool).UpdateEventBasedDecryptedFlags(ctx, svcdb.UpdateEventBasedDecryptedFlagsParams{Eons: eons, Identities: ids})
+	},
 	status: tableSpec{"multi_event_sync_status", []string{"enforce_one_row"}},
 	exact:  []tableSpec{{"event_trigger_registered_event", []string{"eon", "identity"}}},
 	other:  []tableSpec{{"fired_triggers", []string{"eon", "identity"}}},
@@ -621,7 +629,9 @@ func (m *machine) fold(n uint64) map[string]map[string]string {
 		lg := b.Logs[ev.logIdx]
 		row := map[string]any{"block_number": int64(lg.BlockNumber), "block_hash": lg.BlockHash.Bytes(), "tx_index": int64(lg.TxIndex), "log_index": int64(lg.Index)}
 		for k, v := range ev.cols {
-			row[k] = v
+			if k != "decrypted" { // not chain data, not compared
+				row[k] = v
+			}
 		}
 		out[ev.table][ev.key] = renderRow(row) // a later event with the same key replaces the row (upsert)
 	})
@@ -693,7 +703,7 @@ func (m *machine) checkState(sh *shadowDB, when string) *failure {
 	m.label("position-canonical")
 	want := m.fold(st.number)
 	for _, sp := range m.k.exact {
-		got := sh.rendered(sp.name)
+		got := sh.renderedWithout(sp.name, "decrypted")
 		if d := diffRows(got, want[sp.name]); d != "" {
 			return &failure{fmt.Sprintf("%s:%s:%s", m.k.name, sp.name, diffKind(got, want[sp.name])),
 				fmt.Sprintf("%s: position (%d, %x) is canonical but %s differs from the canonical events of blocks %d..%d: %s", when, st.number, st.hash[:4], sp.name, m.k.first(m.syncStart), st.number, d)}
@@ -942,6 +952,75 @@ func (m *machine) extendTip(t *tip, k int, l string) int {
 	return m.addBlocks(t, k, with, l)
 }
 
+// actMarkDecrypted sets decrypted = true on a generated subset of the stored
+// event rows through the keyper's own query (what the key release path does
+// between two new-block events). It is not a Sync: its commits are replayed
+// into the shadow database without being judged.
+func (m *machine) actMarkDecrypted(l string) bool {
+	if m.k.markDecrypted == nil {
+		return false
+	}
+	table := m.k.exact[0].name
+	var keys []string
+	for k, r := range m.shadow.tables[table] {
+		if r["decrypted"] == false {
+			keys = append(keys, k)
+		}
+	}
+	if len(keys) == 0 {
+		return false
+	}
+	sort.Strings(keys)
+	st := m.status(m.shadow)
+	var eons []int64
+	var ids [][]byte
+	recent := 0
+	for i, k := range keys {
+		r := m.shadow.tables[table][k]
+		isRecent := st.ok && uint64(r["block_number"].(int64))+reorgDepth > st.number
+		// rows of the last blocks (those a reorg can abandon) are preferred
+		if (isRecent && rapid.IntRange(0, 3).Draw(m.rt, fmt.Sprintf("%smark%d", l, i)) > 0) || (!isRecent && rapid.IntRange(0, 3).Draw(m.rt, fmt.Sprintf("%smark%d", l, i)) == 0) {
+			eons = append(eons, r["eon"].(int64))
+			ids = append(ids, r["identity"].([]byte))
+			if isRecent {
+				recent++
+			}
+		}
+	}
+	if len(ids) == 0 {
+		return false
+	}
+	if err := m.k.markDecrypted(context.Background(), m.node, eons, ids); err != nil {
+		panic("harness: marking rows decrypted: " + err.Error())
+	}
+	m.checkEngine(m.node.Srv)
+	log := m.node.Srv.CommitLog()
+	m.node.Srv.ResetCommitLog()
+	for _, rec := range log {
+		if _, err := m.shadow.apply(rec); err != nil {
+			panic("harness: " + err.Error())
+		}
+	}
+	m.crossCheckShadow(m.node.Srv, m.shadow)
+	m.hist = append(m.hist, fmt.Sprintf("mark-decrypted[%d rows, %d within reorg reach]", len(ids), recent))
+	m.label("decrypted-flags-set-between-syncs")
+	return true
+}
+
+// abandonedDecrypted reports whether a stored row of a block above fork point
+// f carries the decrypted flag (evaluated when a fork is made).
+func (m *machine) abandonedDecrypted(f uint64) bool {
+	if m.k.markDecrypted == nil {
+		return false
+	}
+	for _, r := range m.shadow.tables[m.k.exact[0].name] {
+		if r["decrypted"] == true && uint64(r["block_number"].(int64)) > f {
+			return true
+		}
+	}
+	return false
+}
+
 // minForkPoint is the lowest fork point the precondition allows: no deeper
 // than the assumed reorg depth below the stored position.
 func (m *machine) minForkPoint() uint64 {
@@ -1020,6 +1099,9 @@ func (m *machine) actFork(l string) bool {
 	m.chain.SetHead(nt.blk)
 	m.hist = append(m.hist, fmt.Sprintf("fork@%d+%d[e%d]", f, k, n))
 	m.label("fork")
+	if m.abandonedDecrypted(f) {
+		m.label("decrypted-flags-set-between-syncs:row-of-later-abandoned-block-marked-decrypted")
+	}
 	return true
 }
 
@@ -1188,6 +1270,10 @@ func runC15History(rt *rapid.T, k *kindSpec, maxActions int) {
 		case c < 10:
 			if !m.actSwitch(l) {
 				m.actExtend(l)
+			}
+		case c < 12 && m.k.markDecrypted != nil:
+			if !m.actMarkDecrypted(l) {
+				fail = m.actSync(l)
 			}
 		default:
 			fail = m.actSync(l)
